@@ -6,7 +6,7 @@ From NSL Require Import Base.Types Base.Syntax Spec.Overload Model.PyNum Model.I
                         Proofs.LowerStmtProofs Proofs.ElabStmtProofs Proofs.StraightLineProofs Proofs.ForwardProofs Proofs.LowerWfProofs.
 Import ListNotations.
 
-Lemma elab_stmt_fresh G env s ts env' gl args : ssimple s = true -> elab_stmt G env s = EOk (ts, env') -> fresh_decl gl args s -> fresh_tdecl gl args ts.
+Lemma elab_stmt_fresh_0 G env s ts env' gl args : ssimple0 s = true -> elab_stmt G env s = EOk (ts, env') -> fresh_decl gl args s -> fresh_tdecl gl args ts.
 Proof.
   intros Hs He Hf. destruct s as [t x init|e0| | | | | | | |]; try discriminate; cbn [elab_stmt] in He.
   - destruct init as [e0|]; cbn [elab_opt ebind] in He.
@@ -14,6 +14,9 @@ Proof.
     + inversion He; subst. exact Hf.
   - destruct (elab G COn env e0) as [e'| |]; cbn [ebind] in He; try discriminate. inversion He; subst. exact Logic.I.
 Qed.
+
+Lemma elab_stmt_fresh G env s ts env' gl args : ssimple s = true -> elab_stmt G env s = EOk (ts, env') -> fresh_decl gl args s -> fresh_tdecl gl args ts.
+Proof. intros Hs He Hf. rewrite desugar_elab in He. apply (desugar_fresh gl args) in Hf. exact (elab_stmt_fresh_0 G env (desugar s) ts env' gl args Hs He Hf). Qed.
 
 Lemma elab_body_fresh G gl args : forall l env e tl te, forallb ssimple l = true ->
   elab_body G env (l ++ [SRet (Some e)]) = EOk (tl ++ [TRet (Some te)]) -> length tl = length l ->
